@@ -51,8 +51,7 @@ func (h H) followerFlushBeforeAck(rule string) {
 	var theDefer *ssa.Defer
 	core.Instrs(fn, func(in ssa.Instruction) {
 		if d, ok := in.(*ssa.Defer); ok {
-			if mc, ok := d.Call.Value.(*ssa.MakeClosure); ok {
-				c := mc.Fn.(*ssa.Function)
+			if c := core.ClosureOf(d.Call.Value); c != nil {
 				if len(h.P.CallsTo(c, cl)) > 0 {
 					closure, theDefer = c, d
 				}
